@@ -58,6 +58,7 @@ class SchedRun:
         self.action = 0
         self.ok = True
         self.in_service = None
+        self.was_empty = True              # system has been empty since the last service start
         self.starts = []
         self.waiting = {}                  # flow -> [pkts] arrived, service not started
         self.rec = Rec(env, on_put=self._dep)
@@ -78,6 +79,8 @@ class SchedRun:
                 break
         else:
             fail('sched.departure-of-unknown-or-duplicate', getattr(pkt, 'packet_id', None))
+        if not self.held:
+            self.was_empty = True
         if self.on_dep:
             self.on_dep(pkt)
         self.check_counters('dep')
@@ -110,7 +113,8 @@ class SchedRun:
     def _after_step(self):
         cur = self.sched.packet_in_service
         if cur is not None and cur is not self.in_service:
-            idle_before = self.in_service is None and len(self.held) == sum(len(v) for v in self.waiting.values())
+            idle_before = self.was_empty
+            self.was_empty = False
             self.starts.append((cur, self.env.now))
             if self.on_start:
                 self.on_start(cur, idle_before)
